@@ -70,6 +70,8 @@ def shapes(n):
         yield [(), (0,), (1,)]
         yield [(), (0,), (0,)]
         yield [(), (), (0, 1)]
+    elif n == 5:
+        yield [(), (), (0,), (1,), (2, 3)]
     else:
         yield [(), (0,), (0,), (1, 2)]
         yield [(), (0,), (1,), (2,)]
@@ -77,8 +79,11 @@ def shapes(n):
         yield [(), (0,), (), (1, 2)]
 
 
-def def_options(tier, is_root, has_ovld_base):
+def def_options(tier, is_root, has_ovld_base, kind=None):
     keys = ["int", "str", "list", "wrap"] if tier == "quick" else ["int", "str", "list", "wrap", "obj"]
+    if kind == "plain":
+        # a mixin class without the metaclass: one definition, possibly marked (the create_subclass / mixin idiom)
+        return [[]] + [[(k, m)] for k in ("int", "str", "list") for m in (False, True)]
     opts = [[]]
     for k in keys:
         for marked in ((False, True) if not is_root else (False,)):
@@ -93,7 +98,7 @@ def def_options(tier, is_root, has_ovld_base):
 
 
 def programs(tier):
-    sizes = (1, 2, 3) if tier == "quick" else (1, 2, 3, 4)
+    sizes = (1, 2, 3, 5) if tier == "quick" else (1, 2, 3, 4, 5)
     for n in sizes:
         for bases in shapes(n):
             roots = [i for i in range(n) if not bases[i]]
@@ -106,12 +111,20 @@ def programs(tier):
             for kinds in itertools.product(*kinds_opts):
                 opts = []
                 for i in range(n):
-                    o = def_options(tier, not bases[i], True)
+                    o = def_options(tier, not bases[i], True, kinds[i])
                     if n == 4 or (n == 3 and tier == "quick"):
                         o = [d for d in o if len(d) <= 1] if bases[i] == () and i > 0 else o
                         if n == 4:
                             o = [d for d in o if len(d) <= 1]
                     opts.append(o)
+                if n == 5:
+                    # A (overloaded root), M (plain mixin), AChild(A) and MChild(M) only inherit, X(AChild, MChild)
+                    if kinds[1] != "plain":
+                        continue
+                    opts[2] = [[]]
+                    opts[3] = [[]]
+                    opts[0] = [d for d in opts[0] if d]
+                    opts[4] = [d for d in opts[4] if len(d) <= 1]
                 for defs in itertools.product(*opts):
                     if not defs[roots[0]]:
                         continue
@@ -156,6 +169,7 @@ def effective_sets(spec):
     """class name -> list of mspecs, or None where the statement / documentation is silent."""
     eff = {}
     own = {}
+    flagged = {}  # class -> its f is an overload marked extend_super (merged implicitly by subclasses without own definition)
     mid = 0
     for name, bases, kind, defs in spec.classes:
         own[name] = [(mid + j, key) for j, (key, marked) in enumerate(defs)]
@@ -170,14 +184,35 @@ def effective_sets(spec):
             elif eff.get(b) not in (None, "nodef"):
                 layers.append((b, eff[b]))
         if kind == "plain":
-            # methods of a class without the metaclass are plain functions: last definition wins
-            eff[name] = ("plain", [mspec(*own[name][-1])]) if own[name] else "nodef"
+            # methods of a class without the metaclass are plain functions (last definition wins), unless
+            # marked: extend_super turns the definition into an overload of its own
+            if not own[name]:
+                eff[name] = "nodef"
+            elif defs[-1][1]:
+                eff[name] = ("ovld", [mspec(*own[name][-1])])
+                flagged[name] = True
+            else:
+                eff[name] = ("plain", [mspec(*own[name][-1])])
             continue
         if not defs:
+            with_f = [b for b in bases if eff.get(b, "nodef") != "nodef"]
             if not layers:
-                eff[name] = "nodef"
-            elif len(layers) == 1 and inherited_known:
+                eff[name] = "nodef" if not with_f else None
+            elif len(with_f) == 1 and inherited_known:
                 eff[name] = layers[0][1]
+                flagged[name] = flagged.get(with_f[0], False)
+            elif (inherited_known and len(with_f) == len(layers) and layers[0][1][0] == "ovld"
+                  and all(flagged.get(b) for b in with_f[1:])):
+                # the first base's overload merged with the marked overloads of the later bases
+                merged = list(layers[0][1][1])
+                ok = True
+                for b, e in layers[1:]:
+                    for m in e[1]:
+                        if any(_sig(x) == _sig(m) and x["id"] != m["id"] for x in merged):
+                            ok = False
+                        elif not any(x["id"] == m["id"] for x in merged):
+                            merged.append(m)
+                eff[name] = ("ovld", merged) if ok else None
             else:
                 eff[name] = None
             continue
@@ -349,7 +384,7 @@ def main(tier):
     return core.finish(
         PROP, tier, "model_checking", merged, t0,
         rule="class hierarchies of <= 3 (thorough 4) classes (chain, fork, two roots joined, diamond; roots use OvldBase, metaclass=OvldMC or "
-             "no metaclass) x every assignment of 0-2 definitions of f per class from a pool (int, str, list walker with recurse, "
+             "no metaclass) plus the 5-class shape 'overloaded root and marked plain mixin, a pass-through child of each, joined' x every assignment of 0-2 definitions of f per class from a pool (int, str, list walker with recurse, "
              "priority wrapper with call_next, object fallback), each optionally marked extend_super x an instance of every class x "
              "every corpus value; (i) before/after differential: defining a class never changes the outcome table of an existing "
              "class; (ii) where the statement speaks (roots; subclasses whose first definition is marked) the logged chain equals "
